@@ -759,6 +759,9 @@ func (ex *Exec) sliceFromHeader(h Struct, elem types.Type) V {
 	switch d := h[0].(type) {
 	case ProvInt:
 		p := ex.provToPtr(d)
+		if p.B == nil && p.OB != nil {
+			p = Ptr{B: p.OB, Off: p.OOff}
+		}
 		if p.B == nil {
 			panic(abortPath{"SliceHeader.Data does not point into a buffer"})
 		}
@@ -812,6 +815,12 @@ func (ex *Exec) fieldAddr(p Ptr, field int, in *ssa.FieldAddr) Ptr {
 	switch {
 	case p.S != nil:
 		s, ok := (*p.S).(Struct)
+		if sl, isSl := (*p.S).(Slice); !ok && isSl && st.NumFields() == 3 {
+			// field-wise access to a slice through (*reflect.SliceHeader)(unsafe.Pointer(&slice)): the slot switches to its
+			// header view {Data, Len, Cap}; later loads at the slice type go back through sliceFromHeader
+			*p.S = ex.coerceLoad(sl, st)
+			s, ok = (*p.S).(Struct)
+		}
 		if !ok {
 			// struct view of something else (e.g. (*reflect.SliceHeader)(unsafe.Pointer(&slice)))
 			panic(abortPath{fmt.Sprintf("FieldAddr on slot holding %T at %s", *p.S, ex.loc(in.Pos()))})
@@ -848,7 +857,7 @@ func (ex *Exec) elemPtr(b *Buf, off *Term, idx *Term, et types.Type) Ptr {
 	}
 	// non numeric element: slot pointer to the cell (keeps interior pointers simple)
 	ci := ex.genCell(b, boff, et)
-	return Ptr{S: &b.cells[ci]}
+	return Ptr{S: &b.cells[ci], OB: b, OOff: boff}
 }
 
 // boundsCheck forks a panic path when idx may be outside [0,n).
